@@ -33,8 +33,20 @@ type PropSpec struct {
 	Exclude        []string   `json:"exclude_classes"`
 	NoInv          bool       `json:"no_invariants"`
 	SkipInv        []string   `json:"skip_invariants"`
-	Include        []string   `json:"include"` // entries of these properties are checked under this property as well
+	Include        []string   `json:"include"`    // entries of these properties are checked under this property as well
+	Regression     []RegTest  `json:"regression"` // replays of recorded findings / repaired defects (thorough tier)
 	standinReports []map[string]any
+	regReports     []map[string]any
+	confirmed2     int
+}
+
+// RegTest: a replay against the real code. expect "fail": a recorded known finding (the replay fails while the defect
+// is present; a pass is reported as a stale finding, never as a violation). expect "pass": a repaired defect (a failure
+// means the defect is back: violation).
+type RegTest struct {
+	Name   string `json:"name"`
+	Cmd    string `json:"cmd"` // run with bash in /verif; $REPO is the repository under test
+	Expect string `json:"expect"`
 }
 
 type PropFunc struct {
@@ -184,6 +196,7 @@ func cmdCheck(args []string) {
 	which := solvers
 	if *tier == "thorough" {
 		timeout = 60 * time.Second
+		crossCheck = true
 	}
 	work, _ := os.MkdirTemp("", "govc-"+*prop)
 	defer os.RemoveAll(work)
@@ -261,6 +274,7 @@ func cmdCheck(args []string) {
 	nObl, nDis := 0, 0
 	solverCount := map[string]int{}
 	solverSecs := map[string]float64{}
+	confirmed2 := 0
 	var samples []any
 	seenNames := map[string]bool{}
 	var unsupportedFns []string
@@ -273,6 +287,9 @@ func cmdCheck(args []string) {
 			if o.Status == "proved" {
 				solverCount[o.Solver]++
 				solverSecs[o.Solver] += o.Secs
+				if o.Agree >= 2 {
+					confirmed2++
+				}
 			}
 			isClaimed := claims[o.Name]
 			switch {
@@ -464,8 +481,34 @@ func cmdCheck(args []string) {
 			nStandinViol++
 		}
 	}
+	// replays of recorded findings and repaired defects against the real code (thorough tier)
+	var regReports []map[string]any
+	if *tier == "thorough" {
+		for _, rt := range spec.Regression {
+			cmd := exec.Command("bash", "-c", rt.Cmd)
+			cmd.Dir = *verif
+			cmd.Env = append(os.Environ(), "REPO="+*repo, "GOFLAGS=-mod=mod", "GOPROXY=off", "GOSUMDB=off", "GOTOOLCHAIN=local")
+			out, err := cmd.CombinedOutput()
+			passed := err == nil
+			rep := map[string]any{"name": rt.Name, "expect": rt.Expect, "passed": passed}
+			switch {
+			case rt.Expect == "pass" && !passed:
+				path := filepath.Join(replayDir, "regression-"+sanitize(rt.Name)+".txt")
+				os.WriteFile(path, out, 0o644)
+				fmt.Printf("VIOLATION property=%s replay=%s regression %s: a repaired defect is back (the replay against the real code fails)\n", *prop, path, rt.Name)
+				exit = 1
+				nStandinViol++
+			case rt.Expect == "fail" && passed:
+				fmt.Printf("NOTE: property=%s the replay of known finding %s passes on this tree: the finding may be stale\n", *prop, rt.Name)
+				rep["stale"] = true
+			}
+			regReports = append(regReports, rep)
+		}
+	}
 	// evidence
 	if !*noEvidence {
+		spec.regReports = regReports
+		spec.confirmed2 = confirmed2
 		spec.standinReports = standinReports
 		ev := buildEvidence(e, spec, *prop, *tier, seed, reports, nObl, nDis, len(viols)+len(problems)+nStandinViol, solverCount, solverSecs, samples, knownObls, undecided, missing, unsupportedFns, time.Since(t0).Seconds(), *verif)
 		os.MkdirAll(filepath.Join(*verif, "evidence"), 0o755)
